@@ -194,8 +194,8 @@ static void c07_case(uint64_t idx)
 	dec_spec mt2; bool reinit = early_end >= 0 && vrng_chance(&r, 1, 2);
 	if (reinit) {
 		mt2 = mt; mt2.threads = 1 + vrng_below(&r, 8);
-		unsigned k2 = vrng_below(&r, 4);
-		mt2.memlimit_threading = k2 == 0 ? mt.memlimit_threading : (k2 == 1 ? 70000 + vrng_below(&r, 600000) : (k2 == 2 ? (1u << 20) + vrng_below(&r, 4u << 20) : UINT64_MAX));
+		unsigned k2 = vrng_below(&r, 6);
+		mt2.memlimit_threading = k2 == 0 ? mt.memlimit_threading : (k2 <= 2 ? 70000 + vrng_below(&r, 600000) : (k2 <= 4 ? (1u << 20) + vrng_below(&r, 4u << 20) : UINT64_MAX));
 		if (vrng_chance(&r, 1, 2)) { plan.mode = SL_RANDOM; if (plan.max_in < 512) plan.max_in = 4096; if (plan.max_out < 512) plan.max_out = 4096; }
 	}
 	// exact-fit output: a sixth of the complete runs get exactly as much output space as the data needs (sometimes
